@@ -157,6 +157,10 @@ def extract(repo, ci):
 
 def run(ctx):
     ctx.attempt(kinematics_rule, ctx)
+    from .c18ops import operator_rule, surface_operator_rule
+
+    ctx.attempt(surface_operator_rule, ctx)
+    ctx.attempt(operator_rule, ctx)
     # 'over arbitrarily many steps': no memo of the step-start state survives the end of the step
     from ..shared import memo_rule as _memo_rule, cached_param_rule as _cached_param_rule
 
